@@ -126,13 +126,24 @@ func (a *Analyzer) computeWrites() {
 		}
 		a.writes[f] = w
 	}
+	// write-backs: a helper that stores its parameter into a location, called with the value just read from that very
+	// location (`s.store(s.height, v)`), does not change the location: for that caller the helper does not write it
+	excl := map[[2]*ssa.Function]map[string]bool{}
+	for _, f := range a.P.Funcs {
+		for _, g := range a.calleesOf(f) {
+			if e := a.writeBacks(f, g); len(e) > 0 {
+				excl[[2]*ssa.Function{f, g}] = e
+			}
+		}
+	}
 	for changed := true; changed; {
 		changed = false
 		for _, f := range a.P.Funcs {
 			w := a.writes[f]
 			for _, g := range a.calleesOf(f) {
+				ex := excl[[2]*ssa.Function{f, g}]
 				for k := range a.writes[g] {
-					if !w[k] {
+					if !w[k] && !ex[k] {
 						w[k] = true
 						changed = true
 					}
@@ -140,6 +151,90 @@ func (a *Analyzer) computeWrites() {
 			}
 		}
 	}
+}
+
+// writeBacks: the locations that g writes only by storing one of its parameters, where every call of g in f passes for
+// that parameter the value loaded from the same location earlier in the same block with no store to it in between.
+func (a *Analyzer) writeBacks(f, g *ssa.Function) map[string]bool {
+	if len(g.Blocks) != 1 || len(a.ownWrites[g]) == 0 {
+		return nil
+	}
+	// location -> parameter index, for straight-line helpers whose callees write nothing
+	for _, h := range a.calleesOf(g) {
+		if len(a.ownWrites[h]) > 0 {
+			return nil
+		}
+	}
+	paramOf := map[string]int{}
+	for _, in := range g.Blocks[0].Instrs {
+		st, ok := in.(*ssa.Store)
+		if !ok {
+			continue
+		}
+		loc := a.addrLoc(st.Addr)
+		if loc == "" {
+			continue
+		}
+		idx := -1
+		for i, p := range g.Params {
+			if st.Val == ssa.Value(p) {
+				idx = i
+			}
+		}
+		if prev, seen := paramOf[loc]; seen && prev != idx {
+			idx = -1
+		}
+		paramOf[loc] = idx
+	}
+	out := map[string]bool{}
+	for loc, idx := range paramOf {
+		if idx < 0 {
+			continue
+		}
+		all, any := true, false
+		for _, b := range f.Blocks {
+			for ci, in := range b.Instrs {
+				call, ok := in.(ssa.CallInstruction)
+				if !ok || call.Common().StaticCallee() != g {
+					continue
+				}
+				any = true
+				good := false
+				if idx < len(call.Common().Args) {
+					if ld, isLd := call.Common().Args[idx].(*ssa.UnOp); isLd && ld.Block() == b && a.addrLoc(ld.X) == loc {
+						good = true
+						past := false
+						for _, mid := range b.Instrs[:ci] {
+							if mid == ssa.Instruction(ld) {
+								past = true
+								continue
+							}
+							if !past {
+								continue
+							}
+							w := map[string]bool{}
+							a.instrOwnWrites(mid, w)
+							if w[loc] {
+								good = false
+							}
+							if mc, isCall := mid.(ssa.CallInstruction); isCall {
+								if sc := mc.Common().StaticCallee(); sc != nil && a.writes[sc][loc] {
+									good = false
+								}
+							}
+						}
+					}
+				}
+				if !good {
+					all = false
+				}
+			}
+		}
+		if any && all {
+			out[loc] = true
+		}
+	}
+	return out
 }
 
 // calleesOf: library functions a function may call (static + VTA), ignoring logging calls.
